@@ -13,10 +13,10 @@ open Pyoda Pyoda.Text
 
 /-- `stepped_roundtrip` / `pattern_roundtrip` at the LocalDateTime type (any template value): restated for the audit -/
 theorem datetime_pattern_roundtrip (tm : Tmpl) (c : Compiled) (get : Getter) (v : List Int)
-    (hd : Delimited true c.steps = true) (hv : ∀ s ∈ c.steps, ValOK get s) (hr : Representable (.datetime tm) c get v)
-    (hne : outSteps get c.steps ≠ []) :
-    fmtCompiled c get [] = .ok (outSteps get c.steps) ∧
-    parseCompiled (.datetime tm) c (outSteps get c.steps) = .ok (some v) :=
+    (hd : Delimited c.cu c.used true c.steps = true) (hv : ∀ s ∈ c.steps, ValOK get s) (hr : Representable (.datetime tm) c get v)
+    (hne : outSteps c.cu c.used get c.steps ≠ []) :
+    fmtCompiled c get [] = .ok (outSteps c.cu c.used get c.steps) ∧
+    parseCompiled (.datetime tm) c (outSteps c.cu c.used get c.steps) = .ok (some v) :=
   pattern_roundtrip (.datetime tm) c get v hd hv hr hne
 
 def isoDateTimeSteps : List Step :=
@@ -31,13 +31,13 @@ theorem isoDateTime_compiles :
       = some (5308, isoDateTimeSteps) := by
   decide +kernel
 
-theorem isoDateTime_delimited : Delimited true isoDateTimeSteps = true := by decide
+theorem isoDateTime_delimited : Delimited invariantCulture 5308 true isoDateTimeSteps = true := by decide
 
 /-- custom LocalDateTime patterns: variable-width fields separated by literals are `Delimited`, adjacent ones not -/
 example : (compiledSteps (compileCustom (.datetime Tmpl.default) invariantCulture "d/M/uuuu H:m:s.FFF".toList)).map
-    (fun p => Delimited true p.2) = some true := by decide +kernel
+    (fun p => Delimited invariantCulture p.1 true p.2) = some true := by decide +kernel
 example : (compiledSteps (compileCustom (.datetime Tmpl.default) invariantCulture "uuuuMdHH".toList)).map
-    (fun p => Delimited true p.2) = some false := by decide +kernel
+    (fun p => Delimited invariantCulture p.1 true p.2) = some false := by decide +kernel
 
 /-- LocalDateTimePattern.extended_iso through the generic theorem: every valid ISO date with every nanosecond of
     the day, for every template value with a whole number of seconds (the optional fraction `;FFFFFFFFF` is not
@@ -45,7 +45,7 @@ example : (compiledSteps (compileCustom (.datetime Tmpl.default) invariantCultur
 theorem isoDateTime_generic_roundtrip (tm : Tmpl) (htm : ltNano tm.nod = 0) (y m d nod : Int) (hv : validDate y m d)
     (h0 : 0 ≤ nod) (h1 : nod < 86400000000000) :
     parseCompiled (.datetime tm) ⟨invariantCulture, 5308, isoDateTimeSteps⟩
-      (outSteps (dtGetter y m d nod) isoDateTimeSteps) = .ok (some [y, m, d, nod]) := by
+      (outSteps invariantCulture 5308 (dtGetter y m d nod) isoDateTimeSteps) = .ok (some [y, m, d, nod]) := by
   have hv' := hv
   obtain ⟨hy1, hy2, hm1, hm2, hd1, hd2⟩ := hv
   have hb := daysInMonth_bounds y m
@@ -77,7 +77,7 @@ theorem isoDateTime_generic_roundtrip (tm : Tmpl) (htm : ltNano tm.nod = 0) (y m
   have hr : Representable (.datetime tm) ⟨invariantCulture, 5308, isoDateTimeSteps⟩ (dtGetter y m d nod) [y, m, d, nod] := by
     have hud : (5308 : Nat) &&& F.allDate = (F.year ||| F.monthNum ||| F.dayOfMonth) := by decide
     have hut : ((5308 : Nat) &&& F.allTime) &&& F.allTimeExceptFraction = (F.hours24 ||| F.minutes ||| F.seconds) := by decide
-    generalize hb' : setSteps (dtGetter y m d nod) (bucket0 (.datetime tm)) isoDateTimeSteps = b'
+    generalize hb' : setSteps invariantCulture (dtGetter y m d nod) (bucket0 (.datetime tm)) isoDateTimeSteps = b'
     have bY : b' .year = y := by
       rw [← hb']; simp only [isoDateTimeSteps, setSteps, setStep]; split <;> simp [Bucket.set, dtGetter, dateGetter]
     have bMo : b' .monthNum = m := by
@@ -107,7 +107,7 @@ theorem isoDateTime_generic_roundtrip (tm : Tmpl) (htm : ltNano tm.nod = 0) (y m
         · exact absurd hz ne
       · simp [Bucket.set, dtGetter]
     rw [bF, e1, e2, e3, e4, time_recompose]
-  have hne : outSteps (dtGetter y m d nod) isoDateTimeSteps ≠ [] := by
+  have hne : outSteps invariantCulture 5308 (dtGetter y m d nod) isoDateTimeSteps ≠ [] := by
     simp only [isoDateTimeSteps, outSteps, outStep]
     obtain ⟨_, _, hne⟩ := numOut_last 4 (dtGetter y m d nod .year)
     intro h
